@@ -54,6 +54,9 @@ Calls ==
     RenderWith(V("pv"), S("p2"), "pv", <<>>), RenderFor(V("pv"), Range(1, 2), "pv", <<>>),
     Include_(S("broken.liquid"), <<>>),
     \* partials whose source is empty or blank are partials like any other (under every policy)
+    \* a partial that rebinds its own argument and hands it on: the new value is what every later read sees
+    Render_(S("p3"), <<Arg("a", S("i"))>>), RenderWith(S("p3"), S("w"), "a", <<>>), RenderFor(S("p3"), Range(1, 2), "a", <<>>),
+    Include_(S("p3"), <<Arg("a", S("i"))>>),
     Include_(S("empty"), <<>>), Render_(S("empty"), <<>>), Include_(S("blank"), <<>>), Render_(S("blank"), <<Arg("a", S("i"))>>) }
 
 \* two uses of related names within one parser lifetime (both spellings of a
@@ -67,13 +70,15 @@ Callers ==
   {<<c1, Txt("|"), c2, Txt("|"), c1, Txt("$")>> : c1 \in Duals, c2 \in Duals}
 
 Parts(body) ==
-  [n \in {"p", "p2", "q.liquid", "broken", "broken.liquid", "p.liquid", "empty", "blank"} |->
+  [n \in {"p", "p2", "q.liquid", "broken", "broken.liquid", "p.liquid", "empty", "blank", "p3"} |->
      CASE n = "p" -> [ok |-> TRUE, body |-> body]
        [] n = "p2" -> [ok |-> TRUE, body |-> P2Body]
        [] n = "q.liquid" -> [ok |-> TRUE, body |-> <<Txt("Q"), Read("a")>>]
        [] n = "broken" -> [ok |-> FALSE]
        [] n = "broken.liquid" -> [ok |-> TRUE, body |-> <<Txt("BL")>>]
        [] n = "p.liquid" -> [ok |-> TRUE, body |-> <<Txt("PL"), Read("b")>>]
+       [] n = "p3" -> [ok |-> TRUE, body |-> <<Assign_("a", S("q")), Render_(S("p2"), <<Arg("b", V("a"))>>), Include_(S("p2"), <<Arg("b", V("a"))>>),
+                                              Assign_("a", Lit(BoolV(FALSE))), Read("a"), Assign_("x", Lit(NilV)), Read("x")>>]
        [] n = "empty" -> [ok |-> TRUE, body |-> <<>>]
        [] n = "blank" -> [ok |-> TRUE, body |-> <<Txt(" ")>>]]
 
